@@ -2,6 +2,7 @@
 (common/namematcher, broker CheckProxyRelayPattern/ProxyPolls, proxy runSession/datachannelHandler)."""
 import json
 import os
+import time
 import vlib
 
 AREA = "namematcher"
@@ -301,8 +302,6 @@ def hist_prop(line, impl):
             elif r != "noproxies":
                 return ("event %d of a history on one broker context: client offer ended irregularly: %s" % (pos, r[:100]),
                         "broker-history-irregular")
-            elif waiting and False:
-                pass
         elif e["kind"] == "install":
             if r != "installed":
                 return ("re-installation of the patterns answered with: " + r[:100], "broker-history-irregular")
@@ -406,7 +405,9 @@ def sess_prop(line, impl):
     for i, (o, r) in enumerate(zip(offers, res)):
         where = ""
         if len(offers) > 1:
-            where = "session %d of a history on one long-lived proxy (earlier relay URLs: %s): " % (i + 1, [x["raw"] for x in offers[:i]])
+            prev = [x["raw"] for x in offers[:i]]
+            where = "session %d of a history on one long-lived proxy (earlier relay URLs: %s%s): " % (
+                i + 1, "... " if len(prev) > 4 else "", prev[-4:])
         bad = sess_prop_one(cfg, o, r, where)
         if bad:
             return bad + (i,)
@@ -987,10 +988,11 @@ def bseq_lines(exe_msg, specs):
     return lines, kinds
 
 
+# (how Start() is made to return [-ProxyType], RelayURL, BrokerURL, NATProbeURL, STUNURL) as the operator gives them; b"" = not given
 SESS_CONFIGS = [("s", b"", b"", b"", b""), ("p", b"", b"", b"", b""),
-                ("p", b"wss://relay.example.net/", b"https://broker.example.net/", b"https://probe.example.net:8443/probe",
+                ("p-webext", b"wss://relay.example.net/", b"https://broker.example.net/", b"https://probe.example.net:8443/probe",
                  b"stun:stun.example.net:3478"),
-                ("s", b"wss://" + CONFIGURED_HOST + b"/", b"", b"", b""),
+                ("s-iptproxy", b"wss://" + CONFIGURED_HOST + b"/", b"", b"", b""),
                 ("p", b"ws://127.0.0.1:8080/", b"https://broker.example.net/", b"", b"")]
 
 
@@ -1008,14 +1010,14 @@ def gen_sess(ctx, effective):
     for ci, eff in enumerate(effective):
         relay, brk, probe, stun = eff
         rh = host_of(relay)
-        pats = dedupe([b"snowflake.torproject.net$", b"^" + rh + b"$", rh.split(b".", 1)[-1] + b"$", b"$", b"^$", b"torproject.net$"])
+        pats = dedupe([b"snowflake.torproject.net$", b"^" + rh + b"$", b"$", rh.split(b".", 1)[-1] + b"$", b"^$", b"torproject.net$"])
         if not thorough:
             pats = pats[:3] + [rng.choice(pats[3:])]
         scheme = relay.split(b":", 1)[0]
         other = b"ws" if scheme == b"wss" else b"wss"
         eq = [relay, brk, probe, stun]
         near = [relay + b"x", relay[:-1], other + relay[len(scheme):], relay + b"?a=1", relay.replace(rh, b"x" + rh), relay.replace(rh, rh + b".evil.com"),
-                scheme.upper() + relay[len(scheme):], b"wss://" + host_of(brk) + b"/", b"ws://" + rh + b"/", b"wss://" + rh + b"/other"]
+                scheme.upper() + relay[len(scheme):], relay.replace(rh, rh.upper()), b"wss://" + host_of(brk) + b"/", b"ws://" + rh + b"/", b"wss://" + rh + b"/other"]
         std = [b"", b"wss://" + G + b"/", b"ws://" + G + b"/", b"wss://evil.com/", b"%zz", b"wss://u@" + G + b"/"]
         for pat in pats:
             for allow in "01":
@@ -1035,8 +1037,17 @@ def gen_sess(ctx, effective):
     return out
 
 
+def stage(ctx, name):
+    now = time.time()
+    last = ctx.extra.get("_t")
+    if last is not None:
+        ctx.extra.setdefault("stage_seconds", {})[last[0]] = round(now - last[1], 1)
+    ctx.extra["_t"] = (name, now)
+
+
 def run(ctx):
     os.environ["VERIF_DRIVER"] = "1"
+    stage(ctx, "build")
     ctx.assumptions += [
         "models = coq/Model/NameMatcher.v, coq/Model/RelayCheck.v (hand written); tie = correspondence on generated cases",
         "url.Parse / URL.Hostname / encoding/json are library boundaries: the scheme and hostname of each relay URL are "
@@ -1052,30 +1063,37 @@ def run(ctx):
     # (i) exported namematcher API
     exe_nm = vlib.go_build("./zz_verif/namematcher")
     lines, kinds = gen_matcher(ctx)
+    stage(ctx, "namematcher-api")
     ctx.correspond(exe_nm, lines, kinds, label="namematcher-api", prop=prop, key_of=key_of)
+    stage(ctx, "build-broker-proxy")
     # (ii) broker decision through IPC.ProxyPolls
     exe_br = vlib.go_test_build("./broker")
     exe_px = vlib.go_test_build("./proxy/lib")
     EXES.update(nm=exe_nm, br=exe_br, px=exe_px)
     lines, kinds = gen_poll(ctx)
+    stage(ctx, "broker-proxypolls")
     ensure_facts(exe_nm, [t for l in lines for t in facts_needed(l)])
     ctx.correspond(exe_br, lines, kinds, label="broker-proxypolls", prop=prop, key_of=key_of, impl_args=TEST_ARGS)
     # (ii') histories on one broker context
     lines, kinds = gen_pollseq(ctx)
+    stage(ctx, "broker-proxypolls-history")
     ensure_facts(exe_nm, [t for l in lines for t in facts_needed(l)])
     ctx.correspond(exe_br, lines, kinds, label="broker-proxypolls-history", prop=prop, key_of=key_of, impl_args=TEST_ARGS)
     ctx.extra["broker_polls_in_histories"] = sum(1 for l in lines for e in l.split(" ")[4].split(",") if e[0] != "c")
     # (ii'') the gated matching machine: polls stay registered while client offers arrive (grun), and the same through
     # the wire decoder with the counters and re-installations (brun)
     lines, kinds = gen_gate(ctx)
+    stage(ctx, "broker-gate-history")
     ensure_facts(exe_nm, [t for l in lines for t in facts_needed(l)])
     ctx.correspond(exe_br, lines, kinds, label="broker-gate-history", prop=prop, key_of=key_of, impl_args=TEST_ARGS)
+    stage(ctx, "broker-wire-history")
     exe_msg = vlib.go_build("./zz_verif/messages")
     lines, kinds = bseq_lines(exe_msg, gen_bseq(ctx))
     ensure_facts(exe_nm, [t for l in lines for t in facts_needed(l)])
     ctx.correspond(exe_br, lines, kinds, label="broker-wire-history", prop=prop, key_of=key_of, impl_args=TEST_ARGS)
     ctx.extra["broker_polls_through_wire_decoder"] = sum(1 for l in lines for e in l.split(" ")[4].split(",") if e[0] == "b")
     # (iii) proxy decision: library boundary first, then runSession / datachannelHandler
+    stage(ctx, "proxy-dial")
     urls = gen_urls(ctx)
     seqs = gen_urlseq(ctx)
     seq_raws = sorted({u for _, _, _, us, _ in seqs for u in us})
@@ -1105,12 +1123,16 @@ def run(ctx):
         ctx.correspond(exe_px, cheap, ckinds, label="proxy-runSession", prop=prop, key_of=key_of, impl_args=TEST_ARGS)
     correspond_full(ctx, exe_px, exe_nm, full, fkinds)
     # (iii') histories on one proxy
+    stage(ctx, "proxy-histories")
     ensure_facts(exe_nm, [t for l in hcheap + hfull for t in facts_needed(l)])
     ctx.correspond(exe_px, hcheap, hckinds, label="proxy-runSession-history", prop=prop, key_of=key_of, impl_args=TEST_ARGS)
     correspond_full(ctx, exe_px, exe_nm, hfull, hfkinds, label="proxy-dial-history")
     ctx.extra["proxy_sessions_in_histories"] = sum(len(l.split(" ")[4].split(",")) for l in hcheap + hfull)
     # (iii'') one proxy configured through the real Start(), end to end: relay URL string -> check -> dial target
+    stage(ctx, "proxy-started-session")
     run_sess(ctx, exe_px, exe_nm)
+    stage(ctx, "end")
+    del ctx.extra["_t"]
 
 
 def run_sess(ctx, exe_px, exe_nm):
